@@ -256,6 +256,11 @@ def main(tier):
             # hash seeds
             for s in seeds[1:]:
                 compare("seed", go("%s-seed%s" % (plugin, s), seed=s), "hashseed=%s" % s)
+            # optimised interpreter (`python -O`)
+            r_opt = genrun.run_generator(plugin, root, models=mA, hashseed="0", tag="%s-opt" % plugin, optimize=True)
+            with lock:
+                runs += 1
+            compare("opt", r_opt, "python -O")
             # re-run into the same directory
             compare("rerun", go("%s-rerun" % plugin, outdir=ref.outdir, seed=seeds[-1]), "re-run into same directory")
             # run after a different model
